@@ -335,8 +335,11 @@ MANIFEST = dict(
           'is either admitted at once (only within the 1/alpha smoothing allowance) or refused with retry_time == sum of '
           'the shares now waiting including its own; the stream wrapper consumes once per threshold, raises the '
           'transfer error instead of sleeping again and leaves no abandoned token scheduled.'),
-    note=('Floats are reals (A-REAL); clock non-decreasing (A-CLOCK-MONOTONE); two finite-sum lemmas are background '
-          'axioms; the windowed rate bound over long histories and fairness in virtual time are not decided by contracts.'),
+    note=('Floats are reals (A-REAL); clock non-decreasing (A-CLOCK-MONOTONE: equal readings allowed -- that is how F20 was found); '
+          'two finite-sum lemmas are background axioms; the windowed rate bound over long histories and fairness in virtual time are '
+          'not decided by contracts. The clauses "admitted only within the allowance" / "refused only when the projected rate exceeds '
+          'the limit" are stated for a request that arrives strictly after the previous consumption: a fresh request in the very '
+          'tick of the previous consumption is always refused once (its instantaneous rate is infinite) and waits its own share.'),
     technique='contract-based deductive verification: monitor invariant + case contracts over reals, z3',
 )
 LEVEL = 'proof'
